@@ -224,6 +224,22 @@ class Flow:
             child.run()
         except AnalysisError:
             return None
+        # a `return` inside the callee's last statement, when that statement is a loop, leaves the loop and
+        # the helper and nothing else: for the caller it is a `break`
+        body = g.body()
+        last = body[-1] if body else None
+        inside = set()
+        if isinstance(last, (ast.For, ast.While)):
+            inside = {id(n) for n in ast.walk(last)}
+            seen_g = set()
+            for e in child.events:
+                for x in e.guards:
+                    if id(x) in seen_g:
+                        continue
+                    seen_g.add(id(x))
+                    if x.early and x.exit == {'return'} and id(x.node) in inside and not any(
+                            isinstance(r, ast.Return) and r.value is not None for r in ast.walk(x.node)):
+                        x.exit = {'break'}
         pl, pg = tuple(self.loops), tuple(self.guards)
         pt = tuple(getattr(self, '_trys', ()))
         pv = tuple(getattr(self, '_valid', ()))
@@ -232,7 +248,9 @@ class Flow:
             e.inlined = g.qualname
             if e.kind == 'return':
                 rets.append(e)
-                continue
+                if not (isinstance(last, (ast.For, ast.While)) and id(e.node) in inside and e.value is None and e.loops):
+                    continue
+                e.kind = 'break'          # leaves the helper's trailing loop: a break for the caller
             e.loops = pl + e.loops
             e.guards = pg + e.guards
             e.trys = pt + e.trys
@@ -245,6 +263,9 @@ class Flow:
         self.inlined.append(g.site)
         # the value of the call
         none = t.atom('const', ('None',))
+        if not rets:
+            return none
+        rets = [r for r in rets if r.kind == 'return']
         if not rets:
             return none
         if any(r.loops for r in rets):
